@@ -267,10 +267,24 @@ def dag_case(script):
     return _guard(go)
 
 
-def _structures(inputs):
-    return {'datasets': [{'name': in_name(k), 'DataStructure': [
+def external_scalars(script):
+    """external scalar inputs are spelled xsc_<k> in the generated scripts; xsc_k has the value k + 1"""
+    return sorted(set(re.findall(r'\bxsc_\d+\b', script or '')))
+
+
+def _structures(inputs, script=None):
+    st = {'datasets': [{'name': in_name(k), 'DataStructure': [
         {'name': 'Id_1', 'type': 'Integer', 'role': 'Identifier', 'nullable': False},
         {'name': 'Me_1', 'type': 'Number', 'role': 'Measure', 'nullable': True}]} for k in inputs]}
+    xs = external_scalars(script)
+    if xs:
+        st['scalars'] = [{'name': x, 'type': 'Integer'} for x in xs]
+    return st
+
+
+def _scalar_values(script):
+    xs = external_scalars(script)
+    return {x: int(x.split('_')[1]) + 1 for x in xs} if xs else None
 
 
 def _datapoints(inputs, ids=(1, 2, 3)):
@@ -308,7 +322,8 @@ def run_case(arg):
                 ev.append([kind, name, info if kind != 'results' else list(info), cat, reads])
         V.sink = sink if want_trace else None
         try:
-            res = _W['run'](script, _structures(inputs), _datapoints(inputs), return_only_persistent=rop)
+            res = _W['run'](script, _structures(inputs, script), _datapoints(inputs), scalar_values=_scalar_values(script),
+                            return_only_persistent=rop)
             out = {}
             for k, v in res.items():
                 df = getattr(v, 'data', None)
@@ -333,7 +348,7 @@ def sem_case(arg):
 
     def go():
         try:
-            res = _W['sem'](script, _structures(inputs))
+            res = _W['sem'](script, _structures(inputs, script))
             out = {}
             for k, v in res.items():
                 comps = getattr(v, 'components', None)
